@@ -26,18 +26,37 @@ import numpy as np
 from runner import Infra, isolated_map
 
 ID = "C05"
-LEAN_MODULES = ["PyYetiVerif.Props.C05", "PyYetiVerif.Audit.C05"]
+LEAN_MODULES = ["PyYetiVerif.Props.C05", "PyYetiVerif.Props.C05Gen", "PyYetiVerif.Props.C05Struct",
+                "PyYetiVerif.Audit.C05"]
 AUDIT_FILE = "PyYetiVerif/Audit/C05.lean"
 THEOREMS = [
     "PyYetiVerif.C05." + n
     for n in (
         "count_total rows_total cycle_values cycle_values_abs offsets_variant_agrees "
-        "loop_exit refines_astm negate shift scale largest_range_counted largest_range_needs_reversals"
+        "loop_exit refines_astm negate shift scale largest_range_counted largest_range_needs_reversals "
+        # the source as translated (Generated/PyRain.lean, Generated/RainflowWrap.lean) is the model
+        "generated_rainflow1_eq_model generated_rainflow2_eq_model generated_entry_eq_model "
+        "generated_wrapper_eq_model generated_rainflow2_eq_model_field "
+        # entry points
+        "entry_refuses_iff entry_other_errors entry_impls_agree_partial entry_impls_agree_needs_safe "
+        "entry_result_shape wrapper_is_relabel call_history_irrelevant "
+        # structure of the table
+        "rows_in_closing_order full_cycles_laminar starts_stops_unique residual_half_cycles_chain "
+        "duplicate_first range_le_overall duplicate_first_field plateau_erases_point "
+        "duplicate_insertion_not_harmless monotone_points_are_counted"
     ).split()
 ]
 TRUSTED = [
-    "correspondence harness harness/props/c05.py (exact comparison on integer/dyadic inputs)",
-    "gcc build of c_rain.c from the working tree (both settings of USE_FASTER_RAINFLOW_ROUTINE)",
+    "correspondence harness harness/props/c05.py (exact comparison: integers for the list model, IEEE bit patterns "
+    "for the generated programs and the entry model run at Float)",
+    "translator harness/translate/c05_pyrain.py (Python ast; grammar and embedding semantics in its docstring and in "
+    "Model/RainflowImp.lean; anything outside the grammar breaks the tie); its output is compared bit for bit with "
+    "py_rain on every run",
+    "gcc build of c_rain.c from the working tree (both settings of USE_FASTER_RAINFLOW_ROUTINE); the C loops are tied "
+    "by correspondence only (no C translator)",
+    "numpy's conversion of the caller's object to an array (np.atleast_1d / PyArray_FROM_OTF) and pandas' DataFrame "
+    "constructor: observed by the container/dtype streams, not modelled",
+    "Lean's Float is the machine's IEEE double (used only to run the generated programs, never in a proof)",
     "numba-decorated py_rain is the same source text as plain py_rain (numba not installed: not executed)",
     "for doubles whose differences round, agreement with the real-number ASTM procedure is not claimed",
 ]
@@ -45,28 +64,68 @@ RULE = (
     "sequences over small integer alphabets (exhaustive by length) plus seeded random integer/"
     "dyadic sequences with ties, plateaus and monotone runs; a case is one (sequence) compared on "
     "all seven implementation variants; non-trivial = length >= 3 and at least one cycle is closed "
-    "inside the loop (step 4 or 5) before step 6; distinct by the sequence itself"
+    "inside the loop (step 4 or 5) before step 6; distinct by the sequence itself. Generated programs and entry model: "
+    "the same sequences plus arbitrary finite doubles (not dyadic: differences round), compared by bit pattern; "
+    "containers/dtypes/shapes: every variant of a base sequence (list, tuple, Series with default/permuted/reversed "
+    "index, Index, memoryview, array.array, range, 0-d, 1xn, nx1, 3-d, empty, one point, bool/int*/uint*/float16/32/64/"
+    "longdouble, strided/negative-stride/Fortran/read-only/byte-swapped/unaligned views) on every entry point; call "
+    "sequences: random sessions of calls with getoffsets omitted / keyword / positional and use_pandas omitted/True/False "
+    "on one set of modules. NaN/inf inputs, complex, object and masked arrays are outside the property's domain: "
+    "skipped and counted."
 )
 ASSUMPTIONS = [
     "float arithmetic on the generated integer/dyadic inputs is exact",
+    "theorems about the translated source are over any element type whose abs(a-b) is the model's |a-b| (every ordered "
+    "field); at IEEE doubles the translated program is run, not proved about",
 ]
 MANIFEST = {
-    "level_text": "Proof (Lean 4, kernel-checked, standard axioms only) about an exact model of the rainflow stack "
-    "machine: 2*sum(count) = L-1, row count, every row carries the range/sum of the two points its offsets name "
+    "level_text": "Proof (Lean 4, kernel-checked, standard axioms only). (1) About an exact list model of the rainflow "
+    "stack machine: 2*sum(count) = L-1, row count, every row carries the range/sum of the two points its offsets name "
     "(start < stop < L), the offsets-free variant computes the same table, the loop exits exactly where the code's "
-    "tests say (termination by well-founded recursion), the code's `j == 2` test equals ASTM E1049's 'Y contains the "
-    "starting point S' (refinement of an explicit-S transcription of the standard), and negate/shift/scale "
-    "equivariance over any ordered field, and that for strictly alternating input the overall range is one of the counted ranges. The model is tied to py_rain.py, to c_rain.c compiled from the working tree "
-    "with and without USE_FASTER_RAINFLOW_ROUTINE and to the cyclecount wrapper by exact correspondence "
-    "(exhaustive small alphabets + seeded random integer/dyadic sequences). Right level: the algorithm is a pure "
-    "stack machine on exactly comparable values, so the whole property is provable.",
-    "level_note": "Trusted: Lean kernel; propext, Classical.choice, Quot.sound; the Python harness; gcc. Theorems are "
-    "over exact arithmetic: for doubles whose differences round, C and Python perform identical IEEE operations but "
-    "agreement with the real-number ASTM procedure is not claimed. 'largest range is always counted' is proved for true reversal sequences "
-    "(strict alternation; `[0,1,2]` shows the hypothesis is necessary). numba variant = same source text, not executed (numba absent).",
-    "technique": "Lean 4 proof (induction over the stack machine, refinement to an ASTM spec) + exact differential correspondence with py_rain and gcc-built c_rain",
+    "tests say, the code's `j == 2` test equals ASTM E1049's 'Y contains the starting point S' (refinement of an "
+    "explicit-S transcription of the standard), negate/shift/scale equivariance over any ordered field, the overall "
+    "range is counted for strictly alternating input; structure of the table: rows are listed in closing order (no "
+    "later row has an endpoint inside an earlier one; full cycles are nested or disjoint; every index is start of at "
+    "most one row and stop of at most one), the half cycles form one chain 0 = s1 < e1 = s2 < ... = L-1, every range "
+    "is at most the overall range, and exactly what a plateau does (a repeated first point only adds a zero half "
+    "cycle; an interior plateau is counted as a zero full cycle that ERASES the point from the stack). (2) About the "
+    "source itself: harness/translate/c05_pyrain.py re-emits py_rain.py (`rainflow`, `_rainflow1`, `_rainflow2`) and "
+    "the import block + wrapper of cyclecount.py as a shallow embedding (arrays, indices j/n, in-place writes, "
+    "break; failure on any out-of-range index, unwritten cell or exhausted fuel) and Lean proves for all inputs that "
+    "these programs never fail and compute the model's table (generated_*_eq_model), so every theorem holds of what "
+    "the source says now. (3) Entry points: ValueError iff not a vector of >= 2 points, result shape, the wrapper is "
+    "a relabelling, results do not depend on the call history. Tie: the translator (regenerated and re-proved every "
+    "run) + exact correspondence of model, generated programs (bit for bit at IEEE doubles, including non-dyadic "
+    "values) and entry model with py_rain, gcc-built c_rain (both macro settings) and the wrapper over containers, "
+    "dtypes, shapes and call sequences.",
+    "level_note": "Trusted: Lean kernel; propext, Classical.choice, Quot.sound; the Python harness and translator; gcc; "
+    "numpy's array conversion and pandas' DataFrame constructor (observed, not modelled). The C loops are tied by "
+    "correspondence only. Theorems are over exact arithmetic: for doubles whose differences round, C and Python "
+    "perform identical IEEE operations (checked bit for bit against the translated program) but agreement with the "
+    "real-number ASTM procedure is not claimed. 'largest range is always counted' is proved for true reversal "
+    "sequences only (`[0,1,2]` shows the hypothesis is necessary). The two implementations agree only for dtypes that "
+    "cast safely to float64: for np.longdouble (also complex, object) c_rain raises TypeError where py_rain counts "
+    "(entry_impls_agree_partial; reported as a failing input). numba variant = same source text, not executed.",
+    "technique": "Lean 4 proof (induction over the stack machine, refinement to an ASTM spec, refinement of a "
+    "source-to-Lean shallow embedding of py_rain.py/cyclecount.py to the model) + exact differential correspondence "
+    "with py_rain, gcc-built c_rain and the wrapper",
 }
-PARTIAL = ""
+PARTIAL = (
+    "entry_impls_agree (py_rain and c_rain are the same function of (peaks, getoffsets)) is proved only for arrays "
+    "whose dtype casts safely to float64 (entry_impls_agree_partial); entry_impls_agree_needs_safe shows the "
+    "hypothesis is necessary: for np.longdouble / complex / object arrays c_rain raises TypeError where py_rain "
+    "returns a table. duplicate_insertion is false as first stated (a repeated interior point is erased, not just "
+    "recorded as a zero-range entry): proved are duplicate_first, plateau_erases_point and the counterexample "
+    "duplicate_insertion_not_harmless. c_rain.c's loops are tied by correspondence, not by a translator."
+)
+
+
+def translate(ctx):
+    from translate import c05_pyrain
+
+    c05_pyrain.generate(ctx.repo, ctx.lean)
+    c05_pyrain.generate_wrapper(ctx.repo, ctx.lean)
+    return ["PyRain.lean", "RainflowWrap.lean"]
 
 
 def _build_c(repo):
